@@ -137,7 +137,7 @@ PROPERTIES: dict[str, dict] = {
         "assumptions": COMMON_ASSUMPTIONS,
     },
     "C15": {
-        "rules": ["R-NOREC", "R-GRAMREC", "R-FAILSITES"],
+        "rules": ["R-NOREC", "R-GRAMREC", "R-FAILSITES", "R-BIJ"],
         "technique": "call-graph cycle detection + grammar rule-graph acyclicity + enumeration of rejecting constructs in the pipeline",
         "explanation": "No input-dependent recursion in tucan code reachable from the public entry points; parse depth is bounded by the number of "
                        "grammar rules because the rule graphs (EBNF, G4, generated ATN) are acyclic; the pipeline contains no raise / size guard, and its one "
